@@ -15,7 +15,8 @@
                                     depths: any functions (which entry is chosen is property C20) *)
 From Coq Require Import List NArith ZArith Bool.
 From SNT Require Import Base.Outcome Encoder.Decimal Encoder.Utf8 Encoder.Encode Encoder.EncodeStream Encoder.EncodeOrig Encoder.VT
-  Encoder.VTProofs Encoder.Denote Encoder.EncodeProofs Encoder.EncodeMeaning Encoder.Color256 Encoder.EncodeC20.
+  Encoder.VTProofs Encoder.Denote Encoder.EncodeProofs Encoder.EncodeMeaning Encoder.Color256 Encoder.EncodeC20 Encoder.Term.
+From SNT Require Render.Cell Render.Screen Render.Frame Render.Spec Render.HistoryProofs Encoder.ScreenSem Encoder.ScreenSemProofs.
 Import ListNotations.
 Local Open Scope N_scope.
 
@@ -86,6 +87,25 @@ Theorem C05_stream_after_complete_prefix :
     forall pre, vt_complete pre = true ->
       vt_ops (pre ++ bs) = vt_ops pre ++ flat_map (denote pal256 gray4 cp) cs.
 Proof. exact c05_stream_thm. Qed.
+
+(*    ONE ENCODER OBJECT.  encode_stream_st threads the only mutable state a TTYEncoder has (the
+      scratch chunk buffer; no memo of what was sent before) through a list of commands.  From ANY
+      state of that buffer the output is the concatenation of the self-contained per-command
+      encodings; after any complete prefix it is read back as the commands' operations, and it
+      takes the terminal (Encoder/Term.v: keyboard level per screen, DEC modes, rendition, margins,
+      title, log of everything else) from ANY state t to the state the denotations lead to. *)
+Theorem C05_stream_one_encoder :
+  forall (pal256 gray4 : rgba -> N), (forall c, pal256 c < 256) ->
+  forall (cp : caps) (cs : list cmd) (s : enc_state),
+  forallb cmd_ok cs = true -> forallb (fun c => negb (is_raw c)) cs = true ->
+  exists bs s',
+    encode_stream_st pal256 gray4 cp s cs = Ok (bs, s') /\
+    encode_stream pal256 gray4 cp cs = Ok bs /\
+    forall pre, vt_complete pre = true ->
+      vt_ops (pre ++ bs) = vt_ops pre ++ flat_map (denote pal256 gray4 cp) cs /\
+      forall t : tstate,
+        run_ops t (vt_ops (pre ++ bs)) = run_ops (run_ops t (vt_ops pre)) (flat_map (denote pal256 gray4 cp) cs).
+Proof. exact c05_stream_one_encoder_thm. Qed.
 
 (*    (the general fact behind it, about the parser alone) *)
 Theorem C05_parser_concat :
@@ -158,6 +178,15 @@ Example C05_char_introducer_witnesses :
   cmd_ok (Termcap [[]]) = true /\ cmd_ok (Termcap []) = true.
 Proof. vm_compute. repeat split; reflexivity. Qed.
 
+(* a repeated keyboard level after a reset must be sent again: the terminal forgot it *)
+Example C05_one_encoder_nonvacuous :
+  encode_stream_st (fun _ => 16) (fun _ => 0) (mkCaps TrueColor false true) [[49]] [KeyboardLevel 5; Reset; KeyboardLevel 5]
+    = Ok ([27; 91; 61; 53; 117; 27; 99; 27; 91; 61; 53; 117], [[49]]) /\
+  ts_kbd_main (run_ops ts_dirty1 (vt_ops [27; 91; 61; 53; 117; 27; 99; 27; 91; 61; 53; 117])) = [5] /\
+  ts_kbd_main (run_ops ts_dirty1 (vt_ops [27; 91; 61; 53; 117; 27; 99])) = [] /\
+  same_final_state (vt_ops [27; 91; 61; 53; 117; 27; 99]) (vt_ops [27; 91; 61; 53; 117; 27; 99; 27; 91; 61; 53; 117]) = false.
+Proof. vm_compute. repeat split; reflexivity. Qed.
+
 (* ---------- the code before the `fix:` commits did NOT have the property ---------- *)
 Example C05_refuted_before_fixes :
   (* CursorTo / ScrollRegion at usize::MAX, CursorMove / Scroll at i32::MIN: panic *)
@@ -183,3 +212,86 @@ Proof.
   - eexists. split; [reflexivity|]. vm_compute. reflexivity.
   - eexists. split; [reflexivity|]. vm_compute. reflexivity.
 Qed.
+
+(* ====================================================================================== *)
+(* C05 o C01                                                                              *)
+(* ====================================================================================== *)
+(* C05 o C01 section — the BYTES of the renderer's commands, read by the independent VT/xterm interpreter
+   and run on C01's reference screen, leave the screen C01's theorems promise.  Statements only;
+   proofs in Encoder/ScreenSemProofs.v.  Nothing in either development's own files changes.
+
+   Vocabulary
+     o                      C01's oracle (cw = wcwidth, fspace / ferase = look of blank / erased cells, ..)
+     fval id / fid r        the Face value the renderer sends for face id / the id of a rendition
+     apply_op, interp_bytes Encoder/ScreenSem.v: xterm meaning of the VT operations on C01's screen
+     interp_cmd s c         run the bytes `encode caps (to_cmd c)` on screen s (image commands: C01's
+                            placement semantics, their protocols are C11 / C12)
+     cmd_valid c            static validity: the face of CFace is a well-formed Face whose id round
+                            trips through fid, the character of CChar is printable
+     exec, exec_list, show, same_display, frame, run   C01 (Render/Screen.v, Frame.v, HistoryProofs.v)
+
+   Scope: true colour (cp_depth caps = TrueColor); under reduced depths the pen would be the
+   face "up to the palette function" -- not stated here.
+   What stays an ASSUMPTION shared with C01's reference terminal: the cell-writing primitives
+   (put_char: a wide character takes two cells, overwriting a half orphans the other; erase_cells),
+   the oracle, and the image placement model.  What is PROVED here: the bytes select these
+   primitives with the right cursor position (CUP off by one, clamped), pen (the SGR sequence sets
+   exactly the face from any prior rendition), character, erase count (ECH does not move the
+   cursor, erases in the erase rendition of the pen), and synchronized-output brackets are
+   invisible. *)
+
+Section C05_C01.
+Import Render.Cell Render.Screen Render.Frame Render.Spec Render.HistoryProofs Encoder.ScreenSem Encoder.ScreenSemProofs.
+Local Close Scope N_scope.
+
+(* 1. PER COMMAND: every renderer command that the reference terminal accepts on screen s (no
+      protocol error) -- CFace, CCursorTo, CChar, CEraseChars, CSync; CImage / CImageErase by
+      definition -- has bytes that do to s exactly what the command does *)
+Theorem C05_C01_bytes :
+  forall (o : oracle) (fval : N -> Encode.face) (fid : rendition -> N) (pal256 gray4 : rgba -> N),
+  (forall c, (pal256 c < 256)%N) ->
+  forall cp : caps, cp_depth cp = TrueColor ->
+  forall (s : screen) (c : Screen.cmd),
+  cmd_valid fval fid c = true -> err (exec o s c) = false ->
+  interp_cmd o fval fid pal256 gray4 cp s c = exec o s c.
+Proof. exact refine_cmd. Qed.
+
+(* 2. COMMAND LISTS *)
+Theorem C05_C01_list :
+  forall (o : oracle) (fval : N -> Encode.face) (fid : rendition -> N) (pal256 gray4 : rgba -> N),
+  (forall c, (pal256 c < 256)%N) ->
+  forall cp : caps, cp_depth cp = TrueColor ->
+  forall (l : list Screen.cmd) (s : screen),
+  forallb (cmd_valid fval fid) l = true -> err (exec_list o s l) = false ->
+  interp_list o fval fid pal256 gray4 cp s l = exec_list o s l.
+Proof. exact refine_list. Qed.
+
+(* 3. HISTORIES: the terminal side of any history, played through the bytes, is the terminal side
+      played through the commands, whenever the latter ends without protocol error *)
+Theorem C05_C01_history_bytes :
+  forall (o : oracle) (fval : N -> Encode.face) (fid : rendition -> N) (pal256 gray4 : rgba -> N),
+  (forall c, (pal256 c < 256)%N) ->
+  forall cp : caps, cp_depth cp = TrueColor ->
+  forall (ops : list Frame.op) (impl : list (list Screen.cmd)) (scr : screen),
+  forallb (forallb (cmd_valid fval fid)) impl = true ->
+  err (play (exec_list o) scr ops impl) = false ->
+  play (interp_list o fval fid pal256 gray4 cp) scr ops impl = play (exec_list o) scr ops impl.
+Proof. exact refine_play. Qed.
+
+(* 4. COROLLARY of C01_history_final: for every history that ends in a frame of S, the screen
+      obtained by INTERPRETING THE BYTES of everything the renderer issued displays show(S) *)
+Theorem C05_C01_history_final :
+  forall (o : oracle) (fval : N -> Encode.face) (fid : rendition -> N) (pal256 gray4 : rgba -> N),
+  (forall c, (pal256 c < 256)%N) ->
+  forall cp : caps, cp_depth cp = TrueColor ->
+  forall h w ops s,
+  oracle_ok o -> good_ops o h w ops ->
+  good_surface o (fst (size_after h w ops)) (snd (size_after h w ops)) s ->
+  let all_ops := ops ++ [Draw s; Frame] in
+  forallb (forallb (cmd_valid fval fid)) (rrun o (rnew h w false) all_ops) = true ->
+  same_display (play (interp_list o fval fid pal256 gray4 cp) (blank_screen h w) all_ops
+                     (rrun o (rnew h w false) all_ops))
+               (show o (fst (size_after h w ops)) (snd (size_after h w ops)) s) = true.
+Proof. exact c05_c01_history_final. Qed.
+
+End C05_C01.
